@@ -92,3 +92,27 @@ Fixpoint model_trace (fuel : nat) (st : state) (ops : list op) :=
   | [] => []
   | o :: ops' => let (x, st') := step fuel st o in model_obs st st' x :: model_trace fuel st' ops'
   end.
+
+(** * Do the hypotheses of the theorems hold on a generated case?
+      (evidence of non-vacuity; evaluated by the correspondence run) *)
+From MX Require Import Exec.Cover Exec.Edits4.
+
+Definition refs_visible (refs : list (rid * (option nat * val))) (sp : nat) (b : list stmt) : bool :=
+  forallb (fun p => match fst (snd p) with
+                    | None => true
+                    | Some s => negb (refn_body b (fst p)) || Nat.eqb sp s
+                    end) refs.
+Definition cell_hyp (refs : list (rid * (option nat * val))) (cl : cell) : bool :=
+  body_ok (cl_body cl) && refs_visible refs (cl_space cl) (cl_body cl).
+Definition op_hyp (cells : list (cid * cell)) (refs : list (rid * (option nat * val))) (o : op) : bool :=
+  match o with
+  | OpSetFormula c b _ _ =>
+      body_ok b && match lookup_cell cells c with Some cl => refs_visible refs (cl_space cl) b | None => true end
+  | _ => true
+  end.
+Definition hyp_case (fuel : nat) (c : case) : bool :=
+  match c with
+  | (cells, refs, maxd, ops, _) =>
+      forallb (fun p => cell_hyp refs (snd p)) cells && forallb (op_hyp cells refs) ops
+      && negb (s_reent (snd (run fuel (init cells refs maxd) ops)))
+  end.
